@@ -51,6 +51,8 @@ class C05(Prop):
             return "class:logos-backtracking" if case.text in self._logos else ("word:" + case.text)
         if case.tag == "refsweep":
             return "unit:" + case.expect[1]
+        if case.tag == "tight-number-unit":
+            return "tight:" + case.text
         return "unitexpr:" + case.text
 
     def corr_excused(self, case, impl, model):
@@ -97,6 +99,11 @@ class C05(Prop):
             if case.tag == "word-name" and case.expect is not None and got != case.expect:
                 return f"unit name {case.text!r} read as {got}, expected {case.expect}"
             return None
+        if isinstance(case.expect, tuple) and case.expect[0] == "TIGHT":
+            from fractions import Fraction
+            f = Fraction(case.expect[1])
+            want = f"R OK {f.numerator}/{f.denominator} {case.expect[2]}"
+            return None if impl == want else f"`{case.text}` (number glued to the unit word) answered {impl[:80]}, expected {want}"
         if isinstance(case.expect, tuple) and case.expect[0] == "REF":
             from . import refsweep as R
             return R.verdict(impl, case.expect[2])
@@ -171,6 +178,18 @@ class C05(Prop):
         step = 23 if tier == "quick" else 1
         for a, b in pairs[::step]:
             out.append(Case("unit " + C.hexs(a + b), "word-two-names", a + b))
+        # three and four names written together (the word parser is called once per piece and
+        # carries its position from call to call)
+        short = [n for n in names if len(n) <= 3 and n.isascii() and n.isalpha()]
+        trip = 4000 if tier == "quick" else 60000
+        for _ in range(trip):
+            k = 3 if rng.chance(3, 4) else 4
+            w = "".join(rng.choice(short if rng.chance(4, 5) else names) for _ in range(k))
+            out.append(Case("unit " + C.hexs(w), "word-three-names", w))
+        for a in ("s", "A", "K", "J", "kg", "m", "N", "W", "mol"):
+            for b in ("s", "A", "K", "kg", "m"):
+                for c in ("s", "A", "K", "kg", "m", "g"):
+                    out.append(Case("unit " + C.hexs(a + b + c), "word-three-names", a + b + c))
         # single-edit corruptions of names (reject stream)
         for n in names[:: 2 if tier == "quick" else 1]:
             for k in range(len(n)):
@@ -235,6 +254,15 @@ class C05(Prop):
                         c = Case("unit " + C.hexs(text), "unitexpr-mixed", text)
                         c.expect = ("MIXED", scale, tuple(dims))
                         out.append(c)
+        # a number glued to the unit word (`2EB`, `5km`): the same quantity as with a blank
+        for w in v.words[:: 2 if tier == "quick" else 1]:
+            word = w[0] + w[1]
+            if not all(ch.isascii() and ch.isalpha() for ch in word) or word == "to":
+                continue
+            for num in ("2", "1.5"):
+                c = Case("query " + C.hexs(num + word), "tight-number-unit", num + word)
+                c.expect = ("TIGHT", num, f"{w[2]}:1:{w[3]}")
+                out.append(c)
         # reference-driven sweep (dimensions AND scale of every reference name at several powers)
         from . import refsweep as R
         for text, name, pw, exp in R.sweep():
